@@ -21,7 +21,7 @@ class Lab:
         self.U = z3.BitVec(tag + 'U', 1 << c) if c else None
         self.M = biomodel.Model(n, k, c, unit_colours=self.U, prefix=tag)
         self.G = biomodel.GraphObj(self.M)
-        self.pre = []
+        self.pre = list(self.M.defs)
         self.sets = {}
         self.cb = merge.VRef(FnItem('mc_utils::dont_track_progress'))
         self.steady = self.M.steady()
